@@ -62,23 +62,23 @@ LimitsRec == {10}
 FileEs == {"file", "es"}
 
 \* ---- simulation: wider alphabets
+SimVariants == {<<"t1", Tg("n1", "", ""), 0>>, <<"t1", Tg("n1", "", ""), 1>>, <<"t2", Tg("", "n1", ""), 0>>, <<"t1", Tg("n1", "n1", ""), 1>>, <<"t2", Tg("n1", "n1", ""), 0>>}
 RacesSim ==
-    {[id |-> id, env |-> env, ts |-> ts, sub |-> 0, track |-> track, chal |-> chal, auto |-> FALSE, car |-> <<"c1">>,
-      tags |-> tags, tp |-> "none", cp |-> "none", pp |-> "none", trev |-> "none", dist |-> "v1", res |-> res, meta |-> 0,
-      rv |-> "2.12.0", rr |-> "none", pipe |-> "benchmark-only"] :
-        id \in {"a", "b", "c"}, env \in {"e1"}, ts \in {0, 1, 3, 4, 9}, track \in {"t1", "t2"}, chal \in {"ch1"},
-        tags \in {Tg("n1", "", ""), Tg("", "n1", ""), Tg("n1", "n1", "")}, res \in {0, 1}}
+    {[id |-> id, env |-> "e1", ts |-> ts, sub |-> 0, track |-> v[1], chal |-> "ch1", auto |-> FALSE, car |-> <<"c1">>,
+      tags |-> v[2], tp |-> "none", cp |-> "none", pp |-> "none", trev |-> "none", dist |-> "v1", res |-> v[3], meta |-> 0,
+      rv |-> "2.12.0", rr |-> "none", pipe |-> "benchmark-only"] : id \in {"a", "b", "c"}, ts \in {1, 3, 4, 9}, v \in SimVariants}
     \cup
     {[id |-> id, env |-> "e2", ts |-> ts, sub |-> 1, track |-> "t1", chal |-> "ch2", auto |-> auto, car |-> <<"c1", "c2">>,
       tags |-> Tg("n2", "", "o1"), tp |-> "set", cp |-> "empty", pp |-> "set", trev |-> "r1", dist |-> "none", res |-> 2, meta |-> 1,
       rv |-> "2.12.0", rr |-> "abc", pipe |-> "from-sources"] : id \in {"a", "b", "c"}, ts \in {2, 6, 11}, auto \in BOOLEAN}
+RacesMis == {r \in RacesSim : r.ts \in {1, 4, 6} /\ r.track = "t1" /\ r.tags.bname = ""}
 FiltersSim ==
     {F(t, n, -1, -1, "") : t \in {"", "t1"}, n \in {"", "n1"}} \cup
     {F("", "", f, t, "") : f \in {-1, 0, 1}, t \in {-1, 1, 2}} \cup
     {F("", "n1", 1, -1, ""), F("t2", "", -1, -1, "ch1"), F("", "", -1, -1, "ch2"), F("t1", "n2", -1, 3, "ch2"), F("", "n2", 1, 5, "")}
 LimitsSim == {0, 1, 2, 3, 10}
 EnvsSim == {"e1", "e2"}
-ForeignSim == {Doc(r) : r \in {x \in RacesSim : x.ts \in {1, 6} /\ x.res # 1 /\ x.track = "t1" /\ x.tags.bname = ""}}
-ForeignEsSim == {Doc(r) : r \in {x \in RacesSim : x.ts \in {4, 11} /\ x.res # 1 /\ x.track = "t1" /\ x.tags.bname = ""}}
+ForeignSim == {Doc(r) : r \in {x \in RacesSim : x.ts \in {1, 6} /\ x.res # 1 /\ x.tags.bname = ""}}
+ForeignEsSim == {Doc(r) : r \in {x \in RacesSim : x.ts \in {4, 11} /\ x.res # 1 /\ x.tags.bname = ""}}
 DeleteSim == {{"a"}, {"b"}, {"a", "c"}}
 =============================================================================
